@@ -41,7 +41,7 @@ class Ctx:
         v = self.raws[i][0]
         if v[0] == "pending":
             v = v[1]
-        if v[0] in ("sum", "diff", "rem"):
+        if v[0] in ("sum", "diff", "rem", "quot"):
             v = v[1]
         if v[0] in ("n", "iv", "nw"):
             return v
@@ -85,7 +85,7 @@ class Ctx:
             return v
         if v[0] == "b":
             return ("iv", 0, 1)
-        if v[0] in ("sum", "diff", "rem"):
+        if v[0] in ("sum", "diff", "rem", "quot"):
             return v[1]
         r = self.an.ty_range(self.args[i][1]) if self.args[i][1] is not None else None
         return ("iv", r[0], r[1]) if r else ("iv", None, None)
@@ -140,7 +140,7 @@ def do_call(an, st, bi, t):
         v = rv
         if v[0] == "pending":
             v = v[1]
-        if v[0] in ("sum", "diff", "rem"):
+        if v[0] in ("sum", "diff", "rem", "quot"):
             v = v[1]
         if v[0] == "nw":
             v = an.reduce_nw(st, v, rt)
@@ -200,7 +200,7 @@ def do_call(an, st, bi, t):
         else:
             an.assign(st, ctx.dest, TOP)
         return [(target, st)]
-    if val[0] in ("sum", "diff", "rem"):
+    if val[0] in ("sum", "diff", "rem", "quot"):
         an.assign_typed(st, ctx.dest, val, {"k": "call"})
     else:
         an.assign(st, ctx.dest, val)
@@ -578,6 +578,14 @@ def m_truncate(c):
 def m_resize(c):
     t, pl = _len_term(c)
     n = c.num(1)
+    raw = c.raw(1)
+    if raw[0] == "nw":
+        x = ("n", raw[1], raw[2])
+        ok, un = c.an.conj_check(c.st, [(("n", None, 0), x, 0)])
+        c.oblige("S3", ok, "D4" if ok else None, "resize to a negative value reinterpreted as unsigned (%s): capacity overflow" % c.an.vs(x),
+                 None if ok else c.an.conj_lift(un))
+        c.an.conj_assume(c.st, [(("n", None, 0), x, 0)])
+        n = ("n", raw[1], raw[2] + raw[3])
     if t is not None:
         c.st.kill(pl, keep_len=True)
         c.an.set_term(c.st, t, n)
@@ -1348,7 +1356,7 @@ def m_iter_consume(c):
 
 
 def forget_closure_captures(c, i):
-    """a closure that captured `&mut place` may write the place when called"""
+    """a closure that captured `&mut place` may write the place when called (narrowed by its mod summary)"""
     op = c.t["args"][i]
     pj = op.get("copy") or op.get("move")
     if pj is None:
@@ -1357,9 +1365,19 @@ def forget_closure_captures(c, i):
     if can is None:
         return
     base = (can[0], can[1])
+    names = None
+    ip = c.an.interproc
+    tix = c.args[i][1]
+    if ip is not None and tix is not None and c.an.T[tix]["k"] == "closure":
+        m = ip.mod.get(c.an.T[tix]["def"])
+        if m is not None and not m.wild and not m.roots:
+            names = m.names
     for p, v in list(c.st.sym.items()):
         if p[0] == base[0] and p[1][:len(base[1])] == base[1] and v[0] == "ref" and v[1] is not None and not isinstance(v[1], str):
-            c.st.kill_under((v[1], v[2]))
+            if names is None:
+                c.st.kill_under((v[1], v[2]))
+            elif names:
+                c.st.kill_under((v[1], v[2]), names)
 
 
 # =========================================================================== misc pure / formatting: no effect on tracked state
